@@ -41,6 +41,9 @@ def _schema(T, cache):
             return inner.subtype(explicitTag=tag.Tag(_CLS[T[2]], tag.tagFormatConstructed, T[3]))
         return inner.subtype(implicitTag=tag.Tag(_CLS[T[2]], tag.tagFormatSimple, T[3]))
     if k in _SIMPLE_CLASSES:
+        if len(T) > 1 and k in ('bits', 'int'):
+            # BIT STRING with named bits / INTEGER with named numbers
+            return _SIMPLE_CLASSES[k](namedValues=namedval.NamedValues(*T[1]))
         return _SIMPLE_CLASSES[k]()
     if k == 'enum':
         return univ.Enumerated(namedValues=namedval.NamedValues(*T[1]))
